@@ -3345,8 +3345,9 @@ func (c *Ctx) nothingAfterDisconnectedRule(rule string) {
 		if td == a.TeardownCore && a.Teardown == a.TeardownCore && n > 0 {
 			continue
 		}
-		for _, cs := range CallSites(td) {
-			if cs.Common().StaticCallee() != a.ConnDispatch {
+		for _, ed := range c.EventDispatches(td, a) {
+			cs := ed.Site
+			if ed.Cmd != "DISCONNECTED" {
 				continue
 			}
 			n++
